@@ -224,7 +224,7 @@ def _unique_name(params: Any) -> str:
     if all_scalar:
         # Format: `pname1=pval1 pname2=pval2 pname3=pval3`
         keys = params.__params__.keys()
-        name = " ".join(f"{k}={str(getattr(params, k))}" for k in keys)
+        name = " ".join(f"{k}={str(_positive_zero(getattr(params, k)))}" for k in keys)
 
         # String values which contain the separators used above (or look like `None`) could make
         # different parameter-values produce the same name. Use the hashing method below for those.
@@ -254,6 +254,13 @@ def _unique_name(params: Any) -> str:
     h.update(data)
     # And return the (hex) digest as our unique name
     return h.hexdigest()
+
+
+def _positive_zero(val: Any) -> Any:
+    """Naming helper: `-0.0` and `0.0` are equal parameter values - one generator call - and get one name."""
+    if isinstance(val, float) and val == 0:
+        return 0.0
+    return val
 
 
 def hdl21_naming_encoder(obj: Any) -> Any:
@@ -306,7 +313,10 @@ def hdl21_naming_encoder(obj: Any) -> Any:
     # often invoking methods not supported on several Hdl21 types.
     # Convert to (shallow) dictionaries instead.
     if dataclasses.is_dataclass(obj):
-        return {f.name: getattr(obj, f.name) for f in dataclasses.fields(obj)}
+        return {
+            f.name: _positive_zero(getattr(obj, f.name))
+            for f in dataclasses.fields(obj)
+        }
 
     # Not an Hdl21 type. Hand off to pydantic.
     return pydantic_json_encoder(obj)
